@@ -20,11 +20,14 @@ MANIFEST = dict(
          "in-range indices, |jobs| = product of the shape, an empty field gives no jobs, left-most slowest, positional "
          "pairing). The model is tied to the code by running State.prepare_states and Task.split through "
          "Submitter(worker='debug') on generated splitters (every tree over <=4 fields x lengths 0-3 in the thorough "
-         "tier, random 5-7 field trees, n-d shapes) and evaluating model and reference on the same cases in Coq.",
+         "tier, random permuted/wrapped trees, random 5-7 field trees; plain lists, one 2-d container case) and "
+         "evaluating model and reference on the same cases in Coq.",
     note="Trusted: Coq kernel + vm_compute; hand-written model Model/State.v (lazy zip/product objects are eager "
          "lists, nested index tuples kept flattened, input_shape/flatten taken as the given shape); end-to-end value "
-         "delivery to the task body is checked by differential testing only. Finding F01 (global keys list out of "
-         "order for >=5 fields) was repaired in /repo; the theorem is about the repaired algorithm.",
+         "delivery to the task body is checked by differential testing only; for container_ndim > 1 the code's extra "
+         "axis-count check in splits_groups is not part of this model (outside the quantifier). Findings F01 (global "
+         "keys list out of order for >=5 fields) and F05 (one-element wrapper doubles the operator) were repaired in "
+         "/repo; the theorem is about the repaired algorithm.",
     technique="Coq proof (compile-correctness of the RPN stack machine against a structural expansion, n-ary folds "
               "by associativity) + model/impl correspondence via generated cases.v, State level and end to end",
     design="§8 Group A / C01",
